@@ -691,3 +691,29 @@ def reeval_type(repo: Repo, rep):
         )
     else:
         rep.ok("R-REEVAL-TYPE", f, f.node, "type check of the re-evaluation is compatible with what map() stores")
+    # the orientation of that check: the *new* value is an instance of the *stored* value's type (the stored one is the base type)
+    for a in [x for x in body_nodes(f.node) if isinstance(x, ast.Call) and norm(x.func) == "isinstance" and len(x.args) == 2 and isinstance(x.args[1], ast.Call) and norm(x.args[1].func) == "type" and x.args[1].args]:
+        first, inner = norm(a.args[0]), norm(a.args[1].args[0])
+        olds = {old, "current"}
+        if first == val and inner != val:
+            rep.ok("R-REEVAL-TYPE", f, a, "isinstance(<new value>, type(<stored value>))")
+        elif inner == val:
+            rep.violation("R-REEVAL-TYPE", f, a, f"`{norm(a)}` asks whether the stored value is an instance of the *new* value's type: the stored copy of an OrderedDict / a list subclass is a plain dict / list, so the second evaluation of such a snapshot raises AssertionError", construct="isinstance-swapped")
+    # both evaluations have the same number of parts: a shorter (or longer) container is a changed snapshot value, not a prefix match
+    cfg = cfg_of(f)
+    zips = [(n_, c) for n_ in cfg.live for c in node_calls(n_) if isinstance(c.func, ast.Name) and c.func.id == "zip" and len(c.args) == 2 and all(isinstance(x, ast.Name) for x in c.args)]
+    for n_, c in zips:
+        a0, a1 = c.args[0].id, c.args[1].id
+        eqs = []
+        for cn in cfg.conds():
+            e = cn.ast
+            if isinstance(e, ast.Compare) and len(e.ops) == 1 and isinstance(e.ops[0], (ast.Eq, ast.NotEq)):
+                sides = {norm(e.left), norm(e.comparators[0])}
+                if sides == {f"len({a0})", f"len({a1})"}:
+                    eqs.append((cn, "T" if isinstance(e.ops[0], ast.Eq) else "F"))
+        from ..cfg import edges_dominate as _ed
+
+        if eqs and _ed(cfg, eqs, n_):
+            rep.ok("R-REEVAL-TYPE", f, c, f"zip({a0}, {a1}) only for equally many parts")
+        else:
+            rep.violation("R-REEVAL-TYPE", f, c, f"`{norm(c)}` pairs the parts of the two evaluations without `len({a0}) == len({a1})` on that path: zip() truncates - a container that became shorter (or longer) on a later evaluation is accepted silently and the value of the first evaluation is used", construct="reeval-length")
